@@ -170,6 +170,28 @@ Section Model.
     | Merge _ => Ok (h, OSkip)      (* binary is a Heap, not a MergeableHeap *)
     end.
 
+  (** [verify()] of binary.go (the package's own integrity check, used by its tests):
+      slot 0 is nil, slots 1..n are not, the slots above n are nil, no parent comes after a child.
+      An index out of range (the Go code would panic) counts as [false]. *)
+  Definition is_nil (a : arr) (i : nat) : bool :=
+    match nth_error a i with Some None => true | _ => false end.
+  Definition is_full (a : arr) (i : nat) : bool :=
+    match nth_error a i with Some (Some _) => true | _ => false end.
+  Definition key_gt (a : arr) (i j : nat) : bool :=   (* cmp(heap[i].Key, heap[j].Key) > 0 *)
+    match nth_error a i, nth_error a j with
+    | Some (Some x), Some (Some y) => (cmp (fst x) (fst y) >? 0)%Z
+    | _, _ => true
+    end.
+  Definition b_verify (h : bheap) : bool :=
+    let a := b_arr h in
+    let n := b_n h in
+    is_nil a 0
+    && forallb (is_full a) (seq 1 n)
+    && forallb (is_nil a) (seq (n + 1) (length a - (n + 1)))
+    && forallb (fun k => (if 2 * k <=? n then negb (key_gt a k (2 * k)) else true)
+                         && (if 2 * k + 1 <=? n then negb (key_gt a k (2 * k + 1)) else true))
+               (seq 1 n).
+
   (** * Binomial heap (heap/binomial.go) *)
   Inductive btree : Type := BNode (k : K) (v : V) (order : nat) (children : list btree).
   Definition bt_key (t : btree) : K := match t with BNode k _ _ _ => k end.
@@ -266,6 +288,27 @@ Section Model.
     | ContainsValue v => Ok (h, OBool (n_exists (has_val v) (n_head h)))
     | Merge _ => Ok (h, OSkip)      (* handled by the pool *)
     end.
+
+  (** [verify()] / [verifyBinomialTree] of binomial.go: root orders strictly increasing; every
+      child comes after its parent, the i-th child (from 1) has order [n.order - i], recursively *)
+  Fixpoint bt_verify (t : btree) : bool :=
+    match t with
+    | BNode k v o cs =>
+        (fix go (i : nat) (l : list btree) : bool :=
+           match l with
+           | [] => true
+           | c :: r => negb (cmp k (bt_key c) >? 0)%Z
+                       && ((i <=? o) && (bt_order c =? o - i))
+                       && bt_verify c && go (S i) r
+           end) 1 cs
+    end.
+  Fixpoint orders_increase (l : list btree) : bool :=
+    match l with
+    | a :: ((b :: _) as r) => (bt_order a <? bt_order b) && orders_increase r
+    | _ => true
+    end.
+  Definition n_verify (h : nheap) : bool :=
+    orders_increase (n_head h) && forallb bt_verify (n_head h).
 
   (** * Fibonacci heap (heap/fibonacci.go) *)
   Inductive ftree : Type := FNode (k : K) (v : V) (degree : nat) (children : list ftree).
@@ -459,6 +502,28 @@ Section Model.
     | Merge _ => Ok (h, OSkip)      (* handled by the pool *)
     end.
 
+  (** [verify()] / [verifyTree] of fibonacci.go: no degree above [maxDegree()], every child comes
+      after its parent and has no larger degree, and [h.ext] is what a scan with [pickExt]
+      around the ring selects (it stays at [h.ext] iff no root comes strictly before it) *)
+  Fixpoint ft_verify (maxD : nat) (t : ftree) : bool :=
+    match t with
+    | FNode k v d cs =>
+        (d <=? maxD)
+        && (fix go (l : list ftree) : bool :=
+              match l with
+              | [] => true
+              | c :: r => negb (cmp k (ft_key c) >? 0)%Z && (ft_degree c <=? d)
+                          && ft_verify maxD c && go r
+              end) cs
+    end.
+  Definition f_verify (h : fheap) : bool :=
+    match f_ring h with
+    | [] => true
+    | e :: _ =>
+        forallb (ft_verify (max_degree (f_n h))) (f_ring h)
+        && forallb (fun t => (cmp (ft_key e) (ft_key t) <=? 0)%Z) (f_ring h)
+    end.
+
   (** * Uniform interface: a pool of heaps of one implementation *)
   Inductive impl : Type := Binary | Binomial | Fibonacci.
   Inductive heap : Type := HB (h : bheap) | HN (h : nheap) | HF (h : fheap).
@@ -480,6 +545,9 @@ Section Model.
     | HF a, HF b => Some (HF (f_merge_heaps a b))
     | _, _ => None
     end.
+
+  Definition h_verify (h : heap) : bool :=
+    match h with HB b => b_verify b | HN b => n_verify b | HF b => f_verify b end.
 
   Definition hop : Type := (nat * act)%type.      (* (index of the receiver in the pool, operation) *)
   Definition pool : Type := list (option heap).   (* [None]: dead (panicked, hung, or merged away) *)
